@@ -144,11 +144,22 @@ def shard_fn(shard, nshards, seed, tier, exe, ntrees):
         for k in core.load_known():
             if k["property"] == PID and k.get("witness_ptr"):
                 extra.append(k["witness_ptr"])
+    # pointer-length sweep: every total pointer length 1..1100 and around 4096 (formatted variants go through
+    # fixed-size / growing buffers whose boundaries nobody should have to guess)
+    sweep = [L for L in list(range(1, 1101)) + list(range(4088, 4104)) if L % nshards == shard]
+    for L in sweep:
+        k1 = (b"k" * (L - 1)) if L > 1 else b""
+        k2 = k1[:-1] if len(k1) > 1 else b"zz"           # the name one character shorter: what a dropped last byte would hit
+        k3 = k1 + b"x"
+        extra.append({"tree": "{ k%s i1 k%s i2 k%s i3 }" % (k1.hex(), k2.hex(), k3.hex()), "get": ("/" + k1.decode()), "set": ("/" + k1.decode()), "sweep": True})
     for i in range(ntrees // nshards + len(extra)):
         if i < len(extra):
             toks = extra[i]["tree"].split()
             ptrs = [extra[i]["get"].encode()] if "get" in extra[i] else []
             sets = [(extra[i]["set"].encode(), ["i7"])] if "set" in extra[i] else []
+            if extra[i].get("sweep"):
+                ptrs = ptrs * 2          # once through get, once through getf (forced below)
+                sets = sets * 2
         else:
             toks = gen_tree(rng)
             while toks == ["n"]:
@@ -175,15 +186,19 @@ def shard_fn(shard, nshards, seed, tier, exe, ntrees):
                 sets.append((sp, vt))
         cmds = ["B 0 " + " ".join(toks), "D 0 1"]
         plan = [("build",), ("dump",)]
-        for p in ptrs:
+        for pi, p in enumerate(ptrs):
             mode = 1 if (b"%" not in p or True) and rng.random() < 0.25 else 0
+            if i < len(extra) and extra[i].get("sweep"):
+                mode = pi % 2
             cmds.append("PGET 0 x%s %d" % (p.hex(), mode))
             plan.append(("get", p, mode))
         if ptrs and rng.random() < 0.3:
             cmds.append("PGET 0 x%s 2" % ptrs[0].hex())
             plan.append(("get", ptrs[0], 2))
-        for sp, vt in sets:
+        for si, (sp, vt) in enumerate(sets):
             usef = rng.random() < 0.25
+            if i < len(extra) and extra[i].get("sweep"):
+                usef = bool(si % 2)
             cmds += ["B 5 " + " ".join(vt), "D 5 1", ("PSETF" if usef else "PSET") + " 0 x%s 5" % sp.hex(), "D 0 1", "PGET 0 x%s 0" % sp.hex(), "PUT5?"]
             plan += [("vbuild",), ("vdump",), ("set", sp, usef), ("dump2",), ("getafter", sp), ("putval",)]
         cmds.append("PUT 0")
